@@ -16,6 +16,25 @@
  *   fold256 <mode> <loc>                256 entries  X"=v"  (X = every byte value) queried with every 1-byte tag
  *   probe <loc>                         does setlocale(LC_ALL,loc) succeed?
  *
+ * Call-sequence families (one "sequence" = one evaluation; counted in seqs/seqok, not in lists):
+ *   EDIT  : base list (N entries, explicit lengths, may hold NULs) -> vorbis_commentheader_out -> vorbis_synthesis_headerin into
+ *           `dec` (the DECODER-FILLED structure) -> K x vorbis_comment_add / vorbis_comment_add_tag onto dec -> dec == base+added
+ *           (count, lengths, bytes, terminators, vendor kept), queries on dec, dec -> vorbis_commentheader_out (mode f: and
+ *           vorbis_analysis_headerout) -> decode again == base+added, queries.
+ *     editgrid <mode> <loc> <Nlo> <Nhi> <Kmax>      every N in Nlo..Nhi x every K in 1..Kmax, contents cycling through S(A6,3)
+ *     editenum <mode> <loc> <alpha> <bmaxlen> <bn> <amaxlen> <ak> <lo> <hi>
+ *           every base list of exactly bn entries over S(alpha,bmaxlen) (first entry index in [lo,hi)) x every added list of
+ *           exactly ak entries over the NUL-free strings of S(alpha,amaxlen)
+ *     edit1 <mode> <loc> <N> <hexlist>              one sequence: the first N entries are the base, the rest is added
+ *   REUSE : vorbis_comment_init -> add N entries -> vorbis_commentheader_out + decode == first -> vorbis_comment_clear ->
+ *           (NO vorbis_comment_init) add M entries -> structure == second (count M, ...), queries, vorbis_commentheader_out
+ *           (mode f: and vorbis_analysis_headerout) -> decode == second, vendor, queries -> vorbis_comment_clear
+ *     reusegrid <mode> <loc> <Nlo> <Nhi> <Mmax>     every N in Nlo..Nhi x every M in 0..Mmax, NUL-free contents cycling through S(A6,3)
+ *     reuseenum <mode> <loc> <alpha> <amaxlen> <an> <bmaxlen> <bn> <lo> <hi>
+ *           every first list of exactly an entries over NUL-free S(alpha,amaxlen) (first entry index in [lo,hi) of the NUL-free
+ *           table) x every second list of exactly bn entries over NUL-free S(alpha,bmaxlen)
+ *     reuse1 <mode> <loc> <N> <hexlist>             one sequence: the first N entries are the first fill, the rest the second
+ *
  *   mode f: struct variant (explicit lengths): zero-terminated buffers -> queries + vorbis_analysis_headerout path,
  *           exact-size unterminated buffers -> vorbis_commentheader_out path;
  *           for NUL-free lists additionally vorbis_comment_add and vorbis_comment_add_tag (split at the first / last '=')
@@ -40,7 +59,7 @@
 #include <fcntl.h>
 
 typedef struct { const unsigned char *p; int len; } ent;
-typedef struct { long lists, nontriv, variants, rts, queries, qnonnull, qcase, qmulti, nul_rt, nul_entries, api_variants, big_rt, amb, nfail; int maxlen; } stats;
+typedef struct { long lists, nontriv, variants, rts, queries, qnonnull, qcase, qmulti, nul_rt, nul_entries, api_variants, big_rt, amb, nfail, seqs, seqok; int maxlen; } stats;
 
 static const char *g_vendor="";
 static vorbis_info g_evi; static vorbis_dsp_state g_vd;
@@ -231,7 +250,7 @@ static int roundtrip(vorbis_comment *vc,const ent *m,int n,int path,int queries)
 }
 
 static void trace_list(const ent *m,int n){
-  char hl[600]; int o=hexlist(hl,sizeof(hl)-2,m,n); hl[o++]='\n';
+  char hl[700]; int o=snprintf(hl,80,"%s ",g_variant); o+=hexlist(hl+o,sizeof(hl)-o-2,m,n); hl[o++]='\n';
   if(pwrite(g_tracefd,hl,o,0)<0){} if(ftruncate(g_tracefd,o)<0){}
 }
 
@@ -284,6 +303,78 @@ static void check_list(const ent *m,int n,int mode){
   S.nul_entries+=nulents;
 }
 
+/* ------------------------------------------------------------ call-sequence families */
+static ent *g_seq; static int g_seqcap; static char g_vn[64];
+static ent *seq_concat(const ent *a,int na,const ent *b,int nb){
+  if(na+nb+1>g_seqcap){ g_seqcap=na+nb+64; g_seq=(ent*)realloc(g_seq,sizeof(ent)*g_seqcap); }
+  if(na)memcpy(g_seq,a,sizeof(ent)*na); if(nb)memcpy(g_seq+na,b,sizeof(ent)*nb);
+  return g_seq;
+}
+/* NUL-free entries through the public API: odd positions holding a '=' go through vorbis_comment_add_tag (split at the first '=') */
+static void apply_adds(vorbis_comment *vc,const ent *m,int n){
+  int i;
+  for(i=0;i<n;i++){
+    const unsigned char *eq=(i&1)?(const unsigned char*)memchr(m[i].p,'=',m[i].len):NULL;
+    if(eq){
+      int tl=(int)(eq-m[i].p); char *tag=(char*)malloc(tl+1);
+      memcpy(tag,m[i].p,tl); tag[tl]=0;
+      vorbis_comment_add_tag(vc,tag,(const char*)eq+1);
+      free(tag);
+    }else vorbis_comment_add(vc,(const char*)m[i].p);
+  }
+}
+/* EDIT: adds onto a decoder-filled structure */
+static void seq_edit(const ent *base,int nb,const ent *add,int na,int mode){
+  ent *m=seq_concat(base,nb,add,na); int n=nb+na,rc; long f0=S.nfail;
+  vorbis_comment src,dec; vorbis_info vi; ogg_packet opc,idp;
+  snprintf(g_vn,sizeof(g_vn),"edit:N=%d",nb); g_variant=g_vn; g_path="-"; g_m=m; g_n=n;
+  if(g_tracefd>=0)trace_list(m,n);
+  S.seqs++;
+  build_exact(&src,base,nb);
+  memset(&opc,0,sizeof(opc));
+  rc=vorbis_commentheader_out(&src,&opc);
+  free_struct(&src);
+  if(rc||!opc.packet){ fail("bad:commentheader_out:rc%d:base",rc); return; }
+  memset(&idp,0,sizeof(idp)); idp.packet=g_id; idp.bytes=g_idlen; idp.b_o_s=1;
+  vorbis_info_init(&vi); vorbis_comment_init(&dec);
+  rc=vorbis_synthesis_headerin(&vi,&dec,&idp);
+  if(!rc)rc=vorbis_synthesis_headerin(&vi,&dec,&opc);
+  free(opc.packet);
+  if(rc){ fail("bad:headerin_comment:rc%d:base",rc); vorbis_comment_clear(&dec); vorbis_info_clear(&vi); return; }
+  if(!compare_vc(&dec,base,nb,"decoded_base",1)){
+    apply_adds(&dec,add,na);
+    if(!compare_vc(&dec,m,n,"edited",1)){
+      check_queries(&dec,m,n,"edited");
+      roundtrip(&dec,m,n,1,1);
+      if(mode=='f')roundtrip(&dec,m,n,0,0);
+    }
+  }
+  vorbis_comment_clear(&dec); vorbis_info_clear(&vi);
+  g_variant="-"; g_path="-";
+  if(S.nfail==f0)S.seqok++;
+}
+/* REUSE: fill, clear, fill again without vorbis_comment_init */
+static void seq_reuse(const ent *a,int na,const ent *b,int nb,int mode){
+  ent *m=seq_concat(a,na,b,nb); long f0=S.nfail; vorbis_comment vc;
+  snprintf(g_vn,sizeof(g_vn),"reuse:N=%d",na); g_variant=g_vn; g_path="-"; g_m=m; g_n=na+nb;
+  if(g_tracefd>=0)trace_list(m,na+nb);
+  S.seqs++;
+  vorbis_comment_init(&vc);
+  apply_adds(&vc,a,na);
+  if(compare_vc(&vc,a,na,"first_fill",0))return;                 /* structure not trusted any more: leak it */
+  if(roundtrip(&vc,a,na,1,0))return;
+  g_path="-";
+  vorbis_comment_clear(&vc);
+  apply_adds(&vc,b,nb);
+  if(compare_vc(&vc,b,nb,"refilled_after_clear",0))return;       /* ditto */
+  check_queries(&vc,b,nb,"refilled_after_clear");
+  roundtrip(&vc,b,nb,1,1);
+  if(mode=='f')roundtrip(&vc,b,nb,0,0);
+  vorbis_comment_clear(&vc);
+  g_variant="-"; g_path="-";
+  if(S.nfail==f0)S.seqok++;
+}
+
 /* ------------------------------------------------------------ enumeration */
 typedef struct { unsigned char b[12]; int len; int excl; } str_t;
 static str_t *g_S; static int g_ns;
@@ -292,21 +383,36 @@ static int parse_hex(const char *s,unsigned char *out,int cap){
   while(s[0]&&s[1]&&n<cap){ unsigned v; if(sscanf(s,"%2x",&v)!=1)return -1; out[n++]=(unsigned char)v; s+=2; }
   return n;
 }
-static void gen_strings(const unsigned char *al,int na,int maxlen,const unsigned char *xal,int nxa,int xmaxlen){
-  long total=1,p=1; int l,i,j; long k;
+static str_t *gen_table(const unsigned char *al,int na,int maxlen,const unsigned char *xal,int nxa,int xmaxlen,int nulfree_only,int *ns){
+  long total=1,p=1; int l,i,j,n=0; long k; str_t *T;
   for(l=1;l<=maxlen;l++){ p*=na; total+=p; }
-  free(g_S); g_S=(str_t*)calloc(total,sizeof(str_t)); g_ns=0;
+  T=(str_t*)calloc(total,sizeof(str_t));
   for(l=0;l<=maxlen;l++){
     long cnt=1; for(i=0;i<l;i++)cnt*=na;
     for(k=0;k<cnt;k++){
-      str_t *s=&g_S[g_ns++]; long r=k; s->len=l;
+      str_t *s=&T[n]; long r=k; s->len=l;
       for(i=l-1;i>=0;i--){ s->b[i]=al[r%na]; r/=na; }
       s->b[l]=0;
+      if(nulfree_only&&memchr(s->b,0,l))continue;
       s->excl=(nxa>=0&&l<=xmaxlen);
       if(s->excl)for(i=0;i<l;i++){ int in=0; for(j=0;j<nxa;j++)if(xal[j]==s->b[i])in=1; if(!in){ s->excl=0; break; } }
+      n++;
     }
   }
+  *ns=n; return T;
 }
+static void gen_strings(const unsigned char *al,int na,int maxlen,const unsigned char *xal,int nxa,int xmaxlen){
+  free(g_S); g_S=gen_table(al,na,maxlen,xal,nxa,xmaxlen,0,&g_ns);
+}
+/* all lists of exactly n entries over table T (first entry index in [lo,hi)), handed to f together with the fixed other list */
+static void prod_rec(ent *m,int pos,int n,const str_t *T,int nt,int lo,int hi,void (*f)(const ent*,int,void*),void *arg){
+  int k,a=(pos==0)?lo:0,b=(pos==0)?(hi<nt?hi:nt):nt;
+  if(pos==n){ f(m,n,arg); return; }
+  for(k=a;k<b;k++){ m[pos].p=T[k].b; m[pos].len=T[k].len; prod_rec(m,pos+1,n,T,nt,lo,hi,f,arg); }
+}
+typedef struct { const ent *outer; int nouter; const str_t *T; int nt; int n; int mode; int kind; } seqctx;
+static void seq_inner(const ent *m,int n,void *arg){ seqctx *c=(seqctx*)arg; if(c->kind==0)seq_edit(c->outer,c->nouter,m,n,c->mode); else seq_reuse(c->outer,c->nouter,m,n,c->mode); }
+static void seq_outer(const ent *m,int n,void *arg){ seqctx *c=(seqctx*)arg; ent in[8]; c->outer=m; c->nouter=n; prod_rec(in,0,c->n,c->T,c->nt,0,c->nt,seq_inner,c); }
 static void enum_rec(ent *m,int pos,int n,int allx,int mode){
   int k;
   if(pos==n){ if(!(allx&&n>0))check_list(m,n,mode); return; }
@@ -368,6 +474,41 @@ int main(int argc,char **argv){
       gen_strings(al,na,maxlen,xal,nxa,xmaxlen);
       if(n==0){ if(lo==0)check_list(m,0,mode); }
       else for(k=lo;k<hi&&k<g_ns;k++){ m[0].p=g_S[k].b; m[0].len=g_S[k].len; enum_rec(m,1,n,g_S[k].excl,mode); }
+    }else if(!strcmp(kind,"editgrid")||!strcmp(kind,"reusegrid")){
+      static const unsigned char A6[6]={0x61,0x41,0x3d,0x00,0xe9,0x69};
+      int lo_=atoi(strtok_r(NULL," \n",&sv)),hi_=atoi(strtok_r(NULL," \n",&sv)),kmax=atoi(strtok_r(NULL," \n",&sv)),ed=!strcmp(kind,"editgrid");
+      int nall,nnf,N,K,i; str_t *ALL=gen_table(A6,6,3,NULL,-1,0,0,&nall),*NF=gen_table(A6,6,3,NULL,-1,0,1,&nnf);
+      ent *a=(ent*)malloc(sizeof(ent)*(hi_+2)),*b=(ent*)malloc(sizeof(ent)*(kmax+2));
+      for(N=lo_;N<=hi_;N++)for(K=ed?1:0;K<=kmax;K++){
+        for(i=0;i<N;i++){ const str_t *t=ed?&ALL[(i*37+N*11+K)%nall]:&NF[(i*37+N*11+K)%nnf]; a[i].p=t->b; a[i].len=t->len; }
+        for(i=0;i<K;i++){ const str_t *t=&NF[(i*13+N+K*5)%nnf]; b[i].p=t->b; b[i].len=t->len; }
+        if(ed)seq_edit(a,N,b,K,mode); else seq_reuse(a,N,b,K,mode);
+      }
+      free(a); free(b); free(ALL); free(NF);
+    }else if(!strcmp(kind,"editenum")||!strcmp(kind,"reuseenum")){
+      unsigned char al[64]; int na,l1,n1,l2,n2,lo,hi,nt1,nt2,ed=!strcmp(kind,"editenum"); char *a1; str_t *T1,*T2; seqctx c; ent out[8];
+      a1=strtok_r(NULL," \n",&sv); l1=atoi(strtok_r(NULL," \n",&sv)); n1=atoi(strtok_r(NULL," \n",&sv)); l2=atoi(strtok_r(NULL," \n",&sv)); n2=atoi(strtok_r(NULL," \n",&sv));
+      lo=atoi(strtok_r(NULL," \n",&sv)); hi=atoi(strtok_r(NULL," \n",&sv));
+      na=parse_hex(a1,al,64);
+      if(na<=0||l1>8||l2>8||n1>7||n2>7||n1<0||n2<0){ printf("%ld BADCASE\n",idx); fflush(stdout); continue; }
+      T1=gen_table(al,na,l1,NULL,-1,0,ed?0:1,&nt1); T2=gen_table(al,na,l2,NULL,-1,0,1,&nt2);
+      memset(&c,0,sizeof(c)); c.T=T2; c.nt=nt2; c.n=n2; c.mode=mode; c.kind=ed?0:1;
+      if(n1==0){ if(lo==0)seq_outer(out,0,&c); }
+      else prod_rec(out,0,n1,T1,nt1,lo,hi,seq_outer,&c);
+      free(T1); free(T2);
+    }else if(!strcmp(kind,"edit1")||!strcmp(kind,"reuse1")){
+      int N=atoi(strtok_r(NULL," \n",&sv)); char *ls=strtok_r(NULL," \n",&sv); ent *m; int n=0,cap=1; char *p,*q,*sv2;
+      if(!ls){ printf("%ld BADCASE\n",idx); fflush(stdout); continue; }
+      for(p=ls;*p;p++)if(*p==',')cap++;
+      m=(ent*)malloc(sizeof(ent)*(cap+1)); ar_reset((long)strlen(ls)+cap*2+64);
+      if(strcmp(ls,"."))for(q=strtok_r(ls,",",&sv2);q;q=strtok_r(NULL,",",&sv2)){
+        int l=(int)strlen(q)/2; unsigned char *bb=ar_alloc(l); l=parse_hex(q,bb,l+1); if(l<0)l=0; bb[l]=0; m[n].p=bb; m[n].len=l; n++;
+      }
+      if(N>n)N=n;
+      { ent *first=(ent*)malloc(sizeof(ent)*(N+1)),*rest=(ent*)malloc(sizeof(ent)*(n-N+1)); memcpy(first,m,sizeof(ent)*N); memcpy(rest,m+N,sizeof(ent)*(n-N));
+        if(!strcmp(kind,"edit1"))seq_edit(first,N,rest,n-N,mode); else seq_reuse(first,N,rest,n-N,mode);
+        free(first); free(rest); }
+      free(m);
     }else if(!strcmp(kind,"one")){
       char *ls=strtok_r(NULL," \n",&sv); ent *m; int n=0,cap=1; char *p,*q,*sv2;
       if(!ls){ printf("%ld BADCASE\n",idx); fflush(stdout); continue; }
@@ -422,8 +563,8 @@ int main(int argc,char **argv){
     if(have_sig)h_hex(&sig,sighex); else strcpy(sighex,"-");
     if(S.nfail)printf("%ld %s nfail=%ld first=%s",idx,g_first,S.nfail,g_firstlist);
     else printf("%ld ok",idx);
-    printf(" lists=%ld nontriv=%ld variants=%ld api=%ld rts=%ld queries=%ld qnonnull=%ld qcase=%ld qmulti=%ld nulents=%ld nulrt=%ld big=%ld amb=%ld maxlen=%d sig=%s\n",
-           S.lists,S.nontriv,S.variants,S.api_variants,S.rts,S.queries,S.qnonnull,S.qcase,S.qmulti,S.nul_entries,S.nul_rt,S.big_rt,S.amb,S.maxlen,sighex);
+    printf(" lists=%ld nontriv=%ld variants=%ld api=%ld rts=%ld queries=%ld qnonnull=%ld qcase=%ld qmulti=%ld nulents=%ld nulrt=%ld big=%ld amb=%ld maxlen=%d seqs=%ld seqok=%ld sig=%s\n",
+           S.lists,S.nontriv,S.variants,S.api_variants,S.rts,S.queries,S.qnonnull,S.qcase,S.qmulti,S.nul_entries,S.nul_rt,S.big_rt,S.amb,S.maxlen,S.seqs,S.seqok,sighex);
     fflush(stdout);
   }
   return 0;
